@@ -401,6 +401,13 @@ def run(ctx):
         rb = [c for c in cc.calls("pgcat::server::Server::query") if any(x.upper().startswith(("ROLLBACK", "ABORT")) for x in arg_strs(cc, c))]
         ok = bool(T) and bool(rb) and any(cc.dominates(te[1], rb[0].block) for te in T) and cc.uncrossed_path([0], [rb[0].block], edges={te for te in T if cc.dominates(te[1], rb[0].block)}) is None
         r5.check(ok, "rollback-on-in-transaction", "ROLLBACK is issued on the in_transaction()==true edge", "ROLLBACK is not tied to in_transaction()==true")
+        # ... and first: RESET ROLE / RESET ALL are transactional - sent while the abandoned transaction is still open they take effect inside it and the ROLLBACK
+        # that follows brings the client's SET values and role back; the connection passes for clean (is_bad false) and the next client inherits them (round 11)
+        resets = [c for c in cc.calls("pgcat::server::Server::query") if c not in rb]
+        late = [(r_, b_) for r_ in resets for b_ in rb if b_.block in cc.reach([r_.block]) and b_.block != r_.block]
+        r5.check(bool(rb) and bool(resets) and not late, "rollback-before-reset", "no ROLLBACK of check-in can follow the reset statements (%d reset quer%s)" % (len(resets), "y" if len(resets) == 1 else "ies"),
+                 "checkin_cleanup can send its ROLLBACK after the reset statements: RESET ROLE / RESET ALL run inside the client's open transaction and are undone by the ROLLBACK - after `SET statement_timeout TO 1; BEGIN; ...` and a client "
+                 "that leaves, the connection goes back to the pool with statement_timeout = 1 and is_bad() false", late[0][1].where() if late else "")
         # both dirty flags are consulted
         flds = set()
         for sw in csw:
